@@ -308,4 +308,19 @@ PROPS = {
         "assumptions": ["harness trait implementations follow the trait contracts", "Storage trait contract: writes cached until commit, commit atomic"],
         "trusted_base": COMMON_TB + ["modelled, not verified: state_machine.rs, update_check.rs, builder.rs, app_set.rs, common.rs"],
     },
+    "C03": {
+        "run": ["EvalC03"], "functional": False,
+        "n": {"quick": 400, "thorough": 6000},
+        "level_text": "Theorems: append_query leaves prefix (scheme, authority) and path untouched and appends exactly one parameter (empty query gives '?&k=v'); the number of cup2key parameters grows by exactly one; "
+                      "the cup2key value never contains '&'; the model's nonce texts are injective.  The real RequestBuilder + StandardCupv2Handler are compared byte for byte with the model on a URL corpus "
+                      "(no path, '/', deep path, existing/empty query, port, userinfo, IPv6 with zone, fragment, existing cup2key, relative, authority-only, '*', invalid): wire URI, wire body = metadata body, key id = latest, "
+                      "nonce in the URL = metadata nonce (64 lower-case hex), two builds give different nonces.  Scripted state-machine histories run under the run-time monitor step3 (every request decorated, "
+                      "nonces pairwise distinct over the history, installer metadata = wire, signature handed over) and are compared with the model's requests.",
+        "level_note": "PARTIAL at the level of theorems: 'every request of every history is decorated with a fresh nonce' is a run-time monitor + trace equality, not yet a theorem about the model "
+                      "(it needs an environment-level invariant on the nonce counter).  Uniqueness of random 256-bit nonces is probabilistic.  http::Uri parsing is an oracle; for URL shapes that are neither absolute nor origin-form only 'no panic' is required.",
+        "diff_meaning": "A decorated request differs from the model (URI, body, metadata, key id, nonce reuse), or the run-time decoration monitor rejects an implementation trace.",
+        "rule": "22-URL corpus x random configs/params/op lists/key sets (latest id from {0,1,42,123456789,u64::MAX}); plus random CUP-enabled state-machine histories with retries, reports and pings; distinct = distinct input / trace",
+        "assumptions": ["http::Uri parsing/rendering (oracle)", "rand::thread_rng yields distinct 256-bit values"],
+        "trusted_base": COMMON_TB + ["modelled, not verified: http_uri_ext.rs append_query_parameter, cup_ecdsa.rs decorate_request, request_builder.rs build"],
+    },
 }
